@@ -2,7 +2,7 @@
 contain the group."""
 import ast
 
-from sa.astutil import (effective, facts_at, call_name, calls_in, dotted, norm, walk_no_nested, try_fold,
+from sa.astutil import (str_template, effective, facts_at, call_name, calls_in, dotted, norm, walk_no_nested, try_fold,
                         names_in, last_attr, guards_of, fact_texts, enclosing_loops,
                         format_fields, concat_str)
 from sa.loader import AnalysisError
@@ -307,18 +307,16 @@ def run(ctx):
     # ------------------------------------------------------------------ R5
     rl = RecordLoop(prog)
     conf_defs = [s for s in walk_no_nested(rl.loop) if isinstance(s, ast.Assign)
-                 and isinstance(s.value, ast.Call) and last_attr(s.value) == 'format'
+                 and str_template(s.value) is not None
                  and any(isinstance(y, ast.Yield) and isinstance(y.value, ast.Tuple)
                          and norm(y.value.elts[0]) == norm(s.targets[0])
                          for y in ast.walk(rl.loop))]
     ok = False
+    conf_fields = []
     if len(conf_defs) == 1:
-        fmt = concat_str(conf_defs[0].value.func.value)
-        if fmt is not None:
-            ff = format_fields(fmt)
-            ok = len(ff) == 2 and ff[0][1].endswith('d') and ff[1][1].endswith('s') \
-                and fmt.replace('{' + ff[0][0] + ':' + ff[0][1] + '}', '').replace(
-                    '{' + ff[1][0] + ':' + ff[1][1] + '}', '') == ''
+        tpl = str_template(conf_defs[0].value)
+        conf_fields = [f for f in tpl if f[0] == 'fld']
+        ok = len(tpl) == 2 and len(conf_fields) == 2 and conf_fields[0][2].endswith('d')
     ctx.ob('C08.R5', 'name:producer-format', ok,
            'the conformation name is "<model:int><alt-loc:1 char>" with nothing in between',
            rl.mod, conf_defs[0] if conf_defs else rl.fn)
@@ -332,7 +330,9 @@ def run(ctx):
     # the alt-loc tag is one record column
     tag_ok = False
     if conf_defs:
-        alt = conf_defs[0].value.args[1] if len(conf_defs[0].value.args) == 2 else None
+        alt = None
+        if len(conf_fields) == 2:
+            alt = ast.parse(conf_fields[1][1], mode='eval').body
         if alt is not None:
             defs0 = [s for s in walk_no_nested(rl.loop) if isinstance(s, ast.Assign)
                      and norm(s.targets[0]) == norm(alt)]
